@@ -1,5 +1,6 @@
 import EgVerif.Proofs.Retry
 import EgVerif.Proofs.RetryIR
+import EgVerif.Proofs.RetryAccept
 import EgVerif.Gen.FactsC10
 /-!
 # C10 — retry and time-limit policies bound attempts and waiting; one breaker record per request
@@ -371,6 +372,105 @@ theorem cancelOK_accepts_model (pool : Pool) (stream permitted : Bool) (env : En
   simp only [cancelOK, List.length_range', decide_eq_true_eq]
   by_contra hlt
   exact hn (List.mem_range'_1.mpr ⟨by omega, by omega⟩)
+
+/-! ### round 7: the judge's `gapsOK` and spec breaker `CB` accept the model (audit item 16, open part) -/
+
+/-- **the judge's `gapsOK` accepts the model**: if every observed gap between two consecutive transport calls is
+at least the whole-ns duration of the model's back-off timer at that position (Go timers do not fire early —
+trusted), `gapsOK` holds — for every pool, stream or buffered, every environment (jitter, cancellation), and
+however many of the model's back-offs were observed. The model has a back-off between any two calls
+(`sleepDurs_length`), so the hypothesis is about every observed gap. -/
+theorem gapsOK_accepts_model (pool : Pool) (stream permitted : Bool) (env : Env) (o : ReqObs)
+    (hlen : o.gaps.length ≤ (sleepDurs (handle pool stream permitted env).events).length)
+    (hge : ∀ k d, (sleepDurs (handle pool stream permitted env).events)[k]? = some d →
+      k < o.gaps.length → d ≤ o.gaps[k]!) :
+    gapsOK pool o = true ∧
+    (callsOf pool stream permitted env).length ≤ (sleepDurs (handle pool stream permitted env).events).length + 1 := by
+  have hev := handle_events pool stream permitted env
+  by_cases hperm : (pool.hasCB && !permitted) = true
+  · rw [hev] at hlen
+    simp only [hperm, if_true, sleepDurs_nil, List.length_nil, Nat.le_zero, List.length_eq_zero_iff] at hlen
+    refine ⟨?_, by unfold callsOf; rw [hev]; simp [hperm, calls_nil]⟩
+    unfold gapsOK; split <;> simp [hlen]
+  · have hperm' : (pool.hasCB && !permitted) = false := by simpa using hperm
+    unfold callsOf
+    rw [hev] at hlen hge ⊢
+    simp only [hperm', Bool.false_eq_true, if_false] at hlen hge ⊢
+    unfold gapsOK
+    cases hr : pool.retry with
+    | none =>
+      refine ⟨rfl, ?_⟩
+      simp [inner, hr, calls_cons_call, calls_nil]
+    | some p =>
+      cases stream with
+      | true =>
+        refine ⟨?_, by simp [inner, hr, calls_cons_call, calls_nil]⟩
+        simp only [inner, hr, Bool.not_true, Bool.false_eq_true, if_false, sleepDurs_cons_call, sleepDurs_nil,
+          List.length_nil, Nat.le_zero, List.length_eq_zero_iff] at hlen
+        simp [hlen]
+      | false =>
+        simp only [inner, hr, Bool.not_false, if_true] at hlen hge ⊢
+        refine ⟨?_, sleepDurs_length pool.failureCodes p env _ 0 _⟩
+        simp only [List.all_eq_true, List.mem_range, decide_eq_true_eq]
+        intro k hk
+        have hk' : k < (sleepDurs (retryLoop pool.failureCodes p env p.maxAttempts.toNat 0 (none, none)).events).length :=
+          by omega
+        have hget := List.getElem?_eq_getElem hk'
+        have h1 := sleepDurs_ge pool.failureCodes p env _ 0 _ k _ hget
+        have h2 := hge k _ hget hk
+        rw [Nat.zero_add] at h1
+        omega
+
+/-- `gapsOK` is not vacuous: a 1 ms fixed back-off with `f = 1/2` demands ≥ 500 µs (−2 ns) between the calls -/
+example : gapsOK ⟨[], some ⟨3, 1000000, false, 1, 2⟩, false⟩ ⟨2, [499997], "", 200⟩ = false ∧
+    gapsOK ⟨[], some ⟨3, 1000000, false, 1, 2⟩, false⟩ ⟨2, [499998], "", 200⟩ = true := by decide
+
+/-- **the judge's breaker bookkeeping accepts the model** (one step of the judge's fold, clause `s8`): with the
+permission the spec breaker grants (`!cb.isOpen`), the model's `handle` is short-circuited exactly when the spec
+breaker is open, and recording the *client-visible* outcome (`result ≠ ""`, what the judge's spec does) is the same
+as recording the flag the model passes to `RecordResult` (what the judge's model does). -/
+theorem cb_spec_accepts_model (pool : Pool) (stream : Bool) (env : Env) (cb : CB)
+    (hcb : pool.hasCB = true) (hmax : ∀ p, pool.retry = some p → 1 ≤ p.maxAttempts) :
+    let out := handle pool stream (!cb.isOpen) env
+    let shortObs := out.result == "shortCircuited"
+    let cbM := match out.cbRecords with | f :: _ => cb.record f | [] => cb
+    let cbS := if pool.hasCB && !shortObs then cb.record (out.result != "") else cb
+    cbS = cbM ∧ shortObs = cb.isOpen := by
+  cases ho : cb.isOpen with
+  | true => simp [handle, hcb]
+  | false =>
+    have hl := inner_last pool stream env hmax
+    simp only [handle, hcb, Bool.not_false, Bool.not_true, Bool.and_false, Bool.false_eq_true, if_false, if_true,
+      Bool.true_and]
+    cases he : (inner pool stream env).err with
+    | none => simp [finish, he]
+    | some e =>
+      have hne := doHandle_result_ne pool.failureCodes _ none e
+        (by rw [← he]; exact (congrArg Prod.fst hl).symm)
+      have hb : (e.result != "") = true := by simp [bne_iff_ne, hne.1]
+      simp [finish, he, hb, hne.2]
+
+/-- **the judge's spec breaker is C08's circuit breaker** under the policy the harness injects (count based window
+of `N`, permitted-in-half-open 1, slow-call threshold 100 %, slow-call and open durations `W` = 1 h): for every
+sequence of client requests shorter than the window whose acquires happen less than `W` after the breaker was
+created and whose calls are not slow, C08's model (`acquire` + `record` per request, tied to the Go breaker by
+C08's ties) is in the state the spec breaker predicts, and the next `AcquirePermission` answers `!isOpen`. -/
+theorem spec_breaker_is_c08_breaker (mc th N : Nat) (W t0 : Int) (rs : List (Bool × Int × Int × Int))
+    (hN : rs.length < N) (hr : ∀ r ∈ rs, r.2.1 < t0 + W ∧ r.2.2.1 < W ∧ t0 ≤ r.2.2.2)
+    (now : Int) (hnow : now < t0 + W) :
+    let s := rs.foldl (fun s r => s.record r.1) ({ minCalls := mc, threshold := th } : CB)
+    let c := rs.foldl (c08Step (harnessPolicy mc th N W)) (CircuitBreaker.new (harnessPolicy mc th N W) t0)
+    c.st.toNat = s.state ∧
+    (CircuitBreaker.acquire (harnessPolicy mc th N W) c now).2.permitted = !s.isOpen := by
+  have h := cbrel_run (W := W) rs _ _ (cbrel_new mc th N W t0) rfl rfl (by simpa using hN) hr
+  exact ⟨cbrel_state h, by rw [cbrel_acquire h hnow]⟩
+
+/-- two failures out of two calls at `minCalls = 2`, threshold 50 %: both breakers open, the third request is refused -/
+example :
+    let P := harnessPolicy 2 50 100 3600000000000
+    let rs : List (Bool × Int × Int × Int) := [(true, 0, 5, 5), (true, 10, 5, 15), (false, 20, 5, 25)]
+    (rs.foldl (c08Step P) (CircuitBreaker.new P 0)).st = .open ∧
+    (rs.foldl (fun s r => s.record r.1) ({ minCalls := 2, threshold := 50 } : CB)).state = 3 := by decide
 
 /-! ### the judge's executable spec accepts the model's own behaviour -/
 
